@@ -4,6 +4,7 @@
 From Coq Require Import List Bool Arith.
 Import ListNotations.
 Require Import PonyV.Model.C18Session PonyV.Gen.C18Web PonyV.Proofs.C18Proofs.
+Require Import PonyV.Model.C18Obs.   (* observation functions of the correspondence run: built with this cone *)
 #[local] Open Scope list_scope.   (* also keeps the cone scanner's regex from backtracking over the next long identifier *)
 
 (* Decorated function called outside any session, for EVERY stream of attempt outcomes (poisoned?, finish | raise e), every
@@ -148,16 +149,16 @@ Theorem C18_bottle : forall (exc : Type) (should_retry : exc -> bool) (cfail : e
 Proof. intros exc sr cf iH iE. exact (bottle_spec exc sr cf (bottle_is_allowed iH iE)). Qed.
 Print Assumptions C18_bottle.
 
-(* Flask integration, IF _exit_session hands the exception type to __exit__: commits iff the view finished normally.
-   (For the unchanged source flask_passes_exc_type = false: see Findings/C18.v.) *)
-Theorem C18_flask_if_type_passed : forall (exc : Type) (cfail : exc) p o x,
+(* Flask integration as it is in /repo (flask_passes_exc_type is re-read from pony/flask/__init__.py on every run): a request is
+   committed iff its view finished normally (and the commit itself did not fail); a view's exception reaches the caller *)
+Theorem C18_flask : forall (exc : Type) (cfail : exc) p o x,
   depth x = 0 -> pend x = [] ->
   exists t',
-    flask_request exc cfail true (leaf exc 0 p o) x
+    flask_request exc cfail flask_passes_exc_type (leaf exc 0 p o) x
     = (mkst 0 [] (comm x ++ match o with Ok => if p then [] else [0] | Raise _ => [] end) (tr x ++ t'),
        match o with Ok => if p then Raise cfail else Ok | Raise e => Raise e end).
-Proof. exact flask_typed. Qed.
-Print Assumptions C18_flask_if_type_passed.
+Proof. exact flask_now. Qed.
+Print Assumptions C18_flask.
 
 (* the model's _commit_or_rollback is the decision skeleton read from /repo (Gen/C18Web.v: can_commit_src, action_src) *)
 Theorem C18_commit_decision_matches_source : forall (exc : Type) (cfail : exc) (s : sess exc) o x,
